@@ -410,13 +410,6 @@ Proof.
   exfalso. exact (Fe _ _ E S).
 Qed.
 
-Lemma addr_list_in n a : In a (addr_list n) <-> 0 <= a < Z.of_nat n.
-Proof.
-  unfold addr_list. rewrite in_map_iff. split.
-  - intros [i [E I]]. apply in_seq in I. lia.
-  - intros H. exists (Z.to_nat a). split; [lia|]. apply in_seq. lia.
-Qed.
-
 (* the list view of a station set whose bits 126 and 127 are clear *)
 Lemma ones_filter (s : Z) (m : Z -> bool) :
   (forall a, 0 <= a <= 125 -> Z.testbit s a = m a) ->
@@ -573,10 +566,6 @@ Qed.
 Lemma tinv_none st : tinv sc_pay (fun _ => None) st.
 Proof. intros a _. reflexivity. Qed.
 
-Lemma track_app (P : Type) (k : Z -> option P) (w1 w2 : list (apoll P)) :
-  track k (w1 ++ w2) = track (track k w1) w2.
-Proof. unfold track. apply fold_left_app. Qed.
-
 (* headline for the scanner *)
 Lemma sc_history_converges ts D h0 h1 s' tr : addr_ok ts ->
   Forall (sc_answers ts D) h1 -> (sweep_polls <= length h1)%nat ->
@@ -702,4 +691,42 @@ Lemma sc_request_thm ts s : addr_ok ts -> sc_rep s -> sc_done s = false ->
 Proof.
   intros Hts [Hc _] D. unfold sc_transmit. rewrite D.
   rewrite (send_request_ok _ (sc_request_wf ts (sc_cursor s) Hts Hc)). reflexivity.
+Qed.
+
+(* ================================================================ the oracle suite of the check *)
+
+Lemma hi_clear_zero c d : hi_clear (mkA c d 0).
+Proof. intros a _. apply Z.testbit_0_l. Qed.
+
+(* every oracle the check runs on the implementation's transcript is a theorem of the model's *)
+Lemma ll_oracle_sound ts h s' tr : addr_ok ts -> ll_run ts ll_new h = Ok (s', tr) ->
+  cursor_walk 0 false (map ll_abs tr) = true /\
+  evs_matchb resp_state_eqb (map ll_abs tr) = true /\
+  alt_walk true 0 (map ll_abs tr) = Some (ll_stations s') /\
+  (no_other (map ll_abs tr) = true -> alt_walk false 0 (map ll_abs tr) = Some (ll_stations s')) /\
+  forall n fuel, snd (converge_scan resp_state_eqb false n fuel [] (map ll_abs tr) (O, O)) = O.
+Proof.
+  intros Hts E. pose proof ll_new_rep as R.
+  split; [exact (ll_cursor_thm ts ll_new h s' tr Hts R E)|].
+  split; [exact (ll_evs_match_thm ts ll_new h s' tr Hts R E)|].
+  split; [exact (ll_alt_o1_thm ts ll_new h s' tr Hts R E)|].
+  split; [intros N; exact (proj1 (ll_alt_thm ts ll_new h s' tr Hts R E N))|].
+  intros n fuel. destruct (ll_sim ts ll_new h s' tr Hts R E) as [_ [T _]]. rewrite T.
+  exact (a_converge_scan_ok resp_state resp_state_eqb resp_state_eqb_refl true false false n (ll_view ll_new)
+           (ll_rep_cur _ R) (hi_clear_zero _ _) ltac:(discriminate) fuel [] (ll_h h) (O, O) eq_refl).
+Qed.
+
+Lemma sc_oracle_sound ts h s' tr : addr_ok ts -> sc_run ts sc_new h = Ok (s', tr) ->
+  cursor_walk 0 false (map sc_abs tr) = true /\
+  evs_matchb sc_pay_eqb (map sc_abs tr) = true /\
+  alt_walk false 0 (map sc_abs tr) = Some (sc_stations s') /\
+  forall n fuel, snd (converge_scan sc_pay_eqb true n fuel [] (map sc_abs tr) (O, O)) = O.
+Proof.
+  intros Hts E. pose proof sc_new_rep as R.
+  split; [exact (sc_cursor_thm ts sc_new h s' tr Hts R E)|].
+  split; [exact (sc_evs_match_thm ts sc_new h s' tr Hts R E)|].
+  split; [exact (proj1 (sc_alt_thm ts sc_new h s' tr Hts R E))|].
+  intros n fuel. destruct (sc_sim ts sc_new h s' tr Hts R E) as [_ [T _]]. rewrite T.
+  exact (a_converge_scan_ok sc_pay sc_pay_eqb sc_pay_eqb_refl false true true n (sc_view sc_new)
+           (sc_rep_cur _ R) (hi_clear_zero _ _) (fun _ => conj eq_refl sc_pay_eqb_eq) fuel [] (sc_h h) (O, O) eq_refl).
 Qed.
